@@ -6,6 +6,7 @@
 //!   agent-commands  (sent.rs)    own agent (cagent.rs) using send_command / SendCommand / Commander to
 //!                                1-3 targets; the harness serves LinkRequest::Commander (vsim::links)
 
+mod boundary;
 mod cagent;
 mod cmdlane;
 mod sent;
@@ -39,7 +40,7 @@ fn main() {
          commander link requests with channels of generated capacity (possibly late) and drains them at a generated pace; \
          non-trivial = for some program and target channel, the target read nothing from the start of the program until \
          the system went idle after it and more bytes of that program's commands than the channel capacity were forwarded \
-         after that point. Distinct by the Debug form of the case.",
+         after that point. agent-commands-boundary: one agent creates and keeps 65 530-65 540 commanders for distinct targets in 2-3 chunks and sends through the first, numbers 65 533-65 537, the last and random ones before and after the end of the u16 id space; non-trivial = >=65 536 distinct registrations were attempted and >=2 commands went through commanders numbered >=65 530. Distinct by the Debug form of the case.",
     );
     ctx.assume("the agent-side traces (program begin/end, on_command, send records) are the ground truth for what was pushed / handled / sent and in which order (handlers run synchronously on the agent task)");
     ctx.assume("single-threaded harness-owned schedule; byte-level interleavings of agent task vs remotes and targets; oracles are invariants over the global sequence-numbered history");
@@ -54,5 +55,8 @@ fn main() {
     ctx.prop("agent-commands", n, move || sent::arb_case(max_ops, false), sent::check);
     let n = ctx.pick(6_500, 150_000);
     ctx.prop("agent-commands-commander", n, move || sent::arb_case(max_ops, true), sent::check);
+    // boundary regime: big cases (65 540 commander registrations each), a small number per run
+    let n = ctx.pick(480, 20_000);
+    ctx.prop("agent-commands-boundary", n, boundary::arb_case, boundary::check);
     ctx.finish();
 }
